@@ -114,8 +114,8 @@ class U:
         return self.it.getattr(obj, name)
 
     # ---- obligations
-    def ensure(self, goal, label, kind="ensures", desc=""):
-        return self.path.prove(goal, f"{self.unit.name}:{label}", kind=kind, desc=desc)
+    def ensure(self, goal, label, kind="ensures", desc="", props=None):
+        return self.path.prove(goal, f"{self.unit.name}:{label}", kind=kind, desc=desc, props=props)
 
     def cover(self, label):
         return self.path.cover(f"{self.unit.name}:cover:{label}")
@@ -123,12 +123,12 @@ class U:
     def canary(self, goal, label):
         """A deliberately false variant of a post-condition: must FAIL to discharge (vacuity guard)."""
         ob = Obligation(name=f"{self.unit.name}:canary:{label}", goal_desc="canary (must not be provable)", kind="canary", path_id=self.path.path_id())
-        saved = list(self.path.idx_terms), set(self.path.idx_seen)
+        saved = list(self.path.idx_terms), list(self.path.idx_tags), set(self.path.idx_seen)
         try:
             f = self.path._goal_to_formula(goal)
             hyps = list(self.path.pc) + self.path._instances()
         finally:
-            self.path.idx_terms, self.path.idx_seen = saved
+            self.path.idx_terms, self.path.idx_tags, self.path.idx_seen = saved
         from .core import solve_valid
 
         res, backend, model = solve_valid(hyps, f, self.path.ex.timeout_ms)
@@ -236,8 +236,9 @@ def run_unit(unit: Unit, timeout_ms=None, repo_root=None) -> UnitResult:
         res.sites[name] = {
             "status": st,
             "kind": obs[0].kind,
+            "props": obs[0].props,
             "instances": len(obs),
-            "goal": obs[0].goal_desc[:200],
+            "goal": (bad.goal_desc if bad is not None else obs[0].goal_desc)[:300],
             "backends": sorted(set(o.backend for o in obs)),
             "time_s": round(sum(o.time_s for o in obs), 3),
             "model": (bad.model if bad is not None else None),
